@@ -28,7 +28,8 @@ inductive Handler | none | returning | recording | throwing
 
 inductive CallKind
   | emit            -- an instruction (consumes the one-shot state)
-  | emitterCall     -- bind / align / embed* / section / new_label / new_named_label / comment: reports through the emitter
+  | bind            -- Assembler::bind: consumes the inline comment (the label line is logged with it), whether it fails or not
+  | emitterCall     -- align / embed* / section / new_label / new_named_label (and Builder bind): never consume one-shot state
   | holderCall      -- CodeHolder::new_section: plain return code, no handler
   | finalize        -- Builder/Compiler::finalize: a batch (serialises every node); only reporting and shadow equality are judged
   deriving DecidableEq, Repr
@@ -40,7 +41,8 @@ structure Obs (δ : Type) where
   ret : Nat
   handled : List Nat
   thrown : Bool
-  oneShot : Nat × Nat × Nat × Bool          -- options, extra-reg signature, extra-reg id, inline comment present
+  oneShot : Nat × Nat × Nat × Bool          -- options, extra-reg signature, extra-reg id, inline comment present (after the call)
+  oneShotBefore : Nat × Nat × Nat × Bool    -- the same right before the call (what the client had set for it)
   before : Snap δ
   after : Snap δ
   shadow : Snap δ
@@ -67,9 +69,15 @@ def reportedOnce (o : Obs δ) : Bool :=
 def failedIsAtomic (o : Obs δ) : Bool :=
   o.ret = 0 || o.kind = .finalize || o.after = o.before
 
-/-- the one-shot state is empty after every instruction call, failed or not -/
+/-- the one-shot state (options, extra register, inline comment) after a call, **failed or not, whatever the handler does**:
+an instruction call consumes all of it; `Assembler::bind` consumes the inline comment; every other call leaves it exactly as the client
+set it (a failed `align` must neither keep half of it nor clear what it does not own) -/
 def oneShotCleared (o : Obs δ) : Bool :=
-  o.kind ≠ .emit || o.oneShot = (0, 0, 0, false)
+  match o.kind with
+  | .emit => o.oneShot = (0, 0, 0, false)
+  | .bind => o.oneShot = (o.oneShotBefore.1, o.oneShotBefore.2.1, o.oneShotBefore.2.2.1, false)
+  | .emitterCall | .holderCall => o.oneShot = o.oneShotBefore
+  | .finalize => true
 
 /-- the emitter is indistinguishable from one that has only ever seen the accepted calls (`finalize` is replayed on the shadow
 whether it fails or not: it must behave identically on identical node lists) -/
